@@ -175,3 +175,8 @@ func HookLock(m *sync.Mutex) {
 }
 
 func HookUnlock(m *sync.Mutex) { m.Unlock() }
+
+// Preemptions bounds the number of preemptive context switches per explored
+// schedule for the rest of the harness (engine only; the tier's own bound
+// applies when it is tighter).
+func Preemptions(n int) {}
